@@ -32,6 +32,16 @@ Reward(env, p) ==
     [] env = "Acrobot" -> IF p.high THEN 0 ELSE -1000  \* -1 per step, 0 on the terminating step
     [] OTHER -> 0
 
+\* State limits of the mountain cars (Gymnasium: v := clip(v, -max_speed, max_speed); x := clip(x, min, max);
+\* if x = min and v < 0 then v := 0 - and nothing else).  The input of the limit rule is abstracted to classes:
+\*   xin \in {"below", "inside", "above"}           position relative to [min_position, max_position]
+\*   vin \in {"neg_big", "neg", "zero", "pos", "pos_big"}   velocity relative to 0 and to +-max_speed
+\* the output to  xout \in {"at_min", "inside", "at_max"},  vout \in {"neg_max", "neg", "zero", "pos", "pos_max"} .
+LimitX(xin) == CASE xin = "below" -> "at_min" [] xin = "above" -> "at_max" [] OTHER -> "inside"
+LimitV(xin, vin) ==
+  LET v == CASE vin = "neg_big" -> "neg_max" [] vin = "pos_big" -> "pos_max" [] OTHER -> vin IN
+  IF LimitX(xin) = "at_min" /\ v \in {"neg_max", "neg"} THEN "zero" ELSE v
+
 \* inelastic left wall: a car at the minimum position does not keep a negative velocity
 WallRule(env, p) == env \in {"MountainCar", "ContinuousMountainCar"} => (p.at_wall => ~p.v_neg)
 =============================================================================
